@@ -16,6 +16,7 @@
 #include <hgraph/types/value/value_builder.h>
 
 // shapes: 0 TSS<int>  1 TSD<int,TS<int>>  2 TSL<TS<int>> (dynamic)  3 TSB{a,b}  4 TSW<int,N,min>  5 TSD<int,TSS<int>>
+//         6 TSS<int> over one key, 7 TSD<int,TS<int>> over one key: a prefix cycle, then NPRIM primitives on that key in one cycle
 #ifndef ONLY_SHAPE
 #define ONLY_SHAPE -1  // -1: the shape is enumerated (verif_choice); 0..4: only that shape (dev runs)
 #endif
@@ -36,6 +37,9 @@
 #endif
 #ifndef TSS_LAST
 #define TSS_LAST NOPS  // operations in the last TSS cycle
+#endif
+#ifndef NPRIM
+#define NPRIM 3  // primitives on the single key of the one-key TSS / TSD shapes in their second cycle
 #endif
 #ifndef MID5
 #define MID5 1  // operations in the middle cycle of the nested shape TSD<int,TSS<int>>
@@ -91,16 +95,28 @@ using namespace hkts;
 #include "C05_delta_shape.inc"
 #undef SHAPE
 #undef SHAPE_NS
+#define SHAPE 6
+#define SHAPE_NS shape_tss_onekey
+#include "C05_delta_shape.inc"
+#undef SHAPE
+#undef SHAPE_NS
+#define SHAPE 7
+#define SHAPE_NS shape_tsd_onekey
+#include "C05_delta_shape.inc"
+#undef SHAPE
+#undef SHAPE_NS
 
 extern "C" int harness_main() {
     (void)schemas();  // concrete set-up shared by all shapes
-    int shape = ONLY_SHAPE >= 0 ? ONLY_SHAPE : verif_choice("shape", 6);
+    int shape = ONLY_SHAPE >= 0 ? ONLY_SHAPE : verif_choice("shape", 8);
     switch (shape) {
         case 0: shape_tss::g_reach.mark("shape_tss"); return shape_tss::run();
         case 1: shape_tsd::g_reach.mark("shape_tsd"); return shape_tsd::run();
         case 2: shape_tsl::g_reach.mark("shape_tsl"); return shape_tsl::run();
         case 3: shape_tsb::g_reach.mark("shape_tsb"); return shape_tsb::run();
         case 4: shape_tsw::g_reach.mark("shape_tsw"); return shape_tsw::run();
-        default: shape_tsd_tss::g_reach.mark("shape_tsd_tss"); return shape_tsd_tss::run();
+        case 5: shape_tsd_tss::g_reach.mark("shape_tsd_tss"); return shape_tsd_tss::run();
+        case 6: shape_tss_onekey::g_reach.mark("shape_tss_onekey"); return shape_tss_onekey::run();
+        default: shape_tsd_onekey::g_reach.mark("shape_tsd_onekey"); return shape_tsd_onekey::run();
     }
 }
